@@ -392,8 +392,7 @@ const char * vbi_proxy_msg_debug_get_type_str( VBIPROXY_MSG_TYPE type )
 */
 vbi_bool vbi_proxy_msg_read_idle( VBIPROXY_MSG_STATE * pIO )
 {
-   assert((pIO->readOff == 0) || (pIO->readOff == pIO->readLen));
-
+   /* a partially received message is a regular state: not idle */
    return (pIO->readOff == 0);
 }
 
@@ -404,8 +403,7 @@ vbi_bool vbi_proxy_msg_write_idle( VBIPROXY_MSG_STATE * pIO )
 
 vbi_bool vbi_proxy_msg_is_idle( VBIPROXY_MSG_STATE * pIO )
 {
-   assert((pIO->readOff == 0) || (pIO->readOff == pIO->readLen));
-
+   /* a partially received message is a regular state: not idle */
    return ((pIO->writeLen == 0) && (pIO->readOff == 0));
 }
 
